@@ -1,6 +1,7 @@
 package c03
 
 import (
+	"fmt"
 	"math/big"
 	"testing"
 	"time"
@@ -16,8 +17,8 @@ import (
 	"verifharness/internal/sim"
 )
 
-// Two fixed histories (regressions of shapes the generated variants found in seeded changes; the generated variants
-// reach them on their own, these only make the two shapes independent of the seed).
+// Fixed histories (regressions of shapes the generated variants found in seeded changes; the generated variants
+// reach them on their own, these only make the shapes independent of the seed).
 
 type fixedWorld struct {
 	t      *rapid.T
@@ -149,6 +150,81 @@ func TestFixedBlockWithReceipts(t *testing.T) {
 			if tx.Type == types.DeployContractTx && f.r.Chain.GetReceipt(tx.Hash()) == nil {
 				t.Fatalf("the receipt of the honest original is not readable after its insertion")
 			}
+		}
+	})
+}
+
+// The node validates the proposal of the round when it arrives; a block with the same header and an edited body that is
+// offered afterwards (nothing in the header recomputed) is refused like any other body edit. The same for the empty
+// block of the round with a transaction attached.
+func TestFixedBodyTwinAfterProposalValidated(t *testing.T) {
+	rapid.Check(t, func(t *rapid.T) {
+		f := newFixedWorld(t, 3, 2, 1000)
+		a0, a1, a2 := f.w.Actors[0], f.w.Actors[1], f.w.Actors[2]
+		_, blk := f.propose(f.tx(a0, types.SendTx, a1, nil, sim.Dna(1)), f.tx(a1, types.SendTx, a2, nil, sim.Dna(2)), f.tx(a2, types.SendTx, a0, nil, sim.Dna(3)))
+		v := f.w.Replicas[1]
+		before := snapshotOf(v)
+		refused := func(what string, c *types.Block) {
+			evid.Eval()
+			if err := v.Validate(c); err == nil {
+				t.Fatalf("%s: accepted by validation", what)
+			}
+			if err := v.AddBlock(c); err == nil {
+				t.Fatalf("%s: inserted", what)
+			}
+			if d := before.diff(snapshotOf(v)); d != "" {
+				t.Fatalf("%s: the refusal left a trace (%s)", what, d)
+			}
+		}
+		for round := 1; round <= 2; round++ {
+			if err := v.Validate(blk); err != nil {
+				t.Fatalf("honest proposal refused by validation: %v", err)
+			}
+			txs := blk.Body.Transactions
+			for _, e := range []struct {
+				name string
+				txs  []*types.Transaction
+			}{{"drop last", []*types.Transaction{txs[0], txs[1]}}, {"drop all", nil}, {"duplicate", []*types.Transaction{txs[0], txs[1], txs[2], txs[2]}},
+				{"reorder", []*types.Transaction{txs[1], txs[0], txs[2]}}, {"drop and reorder", []*types.Transaction{txs[2], txs[0]}}} {
+				c := clone(t, blk)
+				c.Body.Transactions = e.txs
+				refused(fmt.Sprintf("proposal validated %d times, then its header with the body edited (%s)", round, e.name), c)
+			}
+		}
+		e := v.EmptyBlock()
+		if err := v.Validate(e); err != nil {
+			t.Fatalf("empty block of the round refused by validation: %v", err)
+		}
+		c := clone(t, e)
+		c.Body.Transactions = []*types.Transaction{f.tx(a0, types.SendTx, a2, nil, sim.Dna(1))}
+		refused("empty block of the round validated, then the same header with a transaction attached", c)
+		evid.Count("fixed.body_twin_after_proposal_validated")
+		f.deliver(blk)
+	})
+}
+
+// A check state of the caller whose identity tree holds one record too many, and the block consistent with it (the honest
+// block with the identity root of the drifted tree): it passes the validation on the caller's state and the comparison
+// of the state root, and is stopped by the comparison of the identity root - which has to roll back the state tree too.
+// The round then ends with the empty block, which must insert.
+func TestFixedSecondIdentityRootComparison(t *testing.T) {
+	rapid.Check(t, func(t *rapid.T) {
+		f := newFixedWorld(t, 3, 2, 1000)
+		a0, a1 := f.w.Actors[0], f.w.Actors[1]
+		_, blk := f.propose(f.tx(a0, types.SendTx, a1, nil, sim.Dna(1)))
+		v := f.w.Replicas[1]
+		fl := &follower{t: t, h: f.h, r: v}
+		fl.offerDrifted(blk, drift{trees: "identity", idOp: "toggle-validated", addr: common.Address{0x7, 0x7, 0x7}, who: "an address the chain has never seen", shape: shapeForCheck})
+		if fl.driftRejected != 1 {
+			t.Fatalf("scenario: the drifted block was not stopped by the second comparison of the roots")
+		}
+		evid.Count("fixed.second_identity_root_comparison")
+		e := v.EmptyBlock()
+		if err := v.AddBlock(e); err != nil {
+			t.Fatalf("the empty block of the round is refused after the rejection: %v", err)
+		}
+		if v.AppState.State.Root() != e.Root() || v.AppState.IdentityState.Root() != e.IdentityRoot() {
+			t.Fatalf("canonical roots are not the inserted empty block's")
 		}
 	})
 }
